@@ -53,7 +53,7 @@ type c08Spec struct {
 	ShotDur      time.Duration
 }
 
-var c08Kinds = []string{"uri", "uripost", "raw", "json-lines", "json-pretty", "json-array", "grpc/json", "http/scenario", "grpc/scenario", "json-file", "json-inline"}
+var c08Kinds = []string{"uri", "uripost", "raw", "json-lines", "json-pretty", "json-array", "grpc/json", "http/scenario", "grpc/scenario", "json-file", "json-inline", "uri-inline"}
 
 func scenarioYAML(grpc bool, weights []int) string {
 	var b strings.Builder
@@ -107,6 +107,18 @@ func c08Build(w *simrt.Stream, kind string, n int, preload bool, limit, passes i
 		files["/ammo/ammo.txt"] = renderFile(format, items, l)
 		conf = map[string]interface{}{"type": typ, "file": "/ammo/ammo.txt", "limit": limit, "passes": passes, "preload": preload}
 		desc = l.String()
+	case "uri-inline":
+		// the uri provider fed from the `uris` list of its configuration instead of a file
+		var uris []interface{}
+		for i := 0; i < n; i++ {
+			q := genReq(w, "uri", i)
+			line := q.URI
+			if q.Tag != "" {
+				line += " " + q.Tag
+			}
+			uris = append(uris, line)
+		}
+		conf = map[string]interface{}{"type": "uri", "uris": uris, "limit": limit, "passes": passes, "preload": preload}
 	case "grpc/json":
 		var b strings.Builder
 		for i := 0; i < n; i++ {
